@@ -20,8 +20,19 @@ SPECIAL_FLOATS = [5e-05, -5e-05, 1e-07, 123456.789, 1e16, 3.0, -2.0, 0.0, 7.3, -
 
 
 def same(a, b):
+    """equality of gates as the library's own == defines it (CNOT = CX; numeric parameters modulo the period of the gate,
+    4*pi for controlled rotations), leaving the variational flag aside (no format can express it)"""
     nm = lambda s: "CX" if s == "CNOT" else s
-    return nm(a["n"]) == nm(b["n"]) and a["t"] == b["t"] and a["c"] == b["c"] and (a["p"] == b["p"] or (a["p"] is None and b["p"] is None))
+    if not (nm(a["n"]) == nm(b["n"]) and a["t"] == b["t"] and a["c"] == b["c"]):
+        return False
+    pa, pb = a["p"], b["p"]
+    if isinstance(pa, float) and isinstance(pb, float):
+        if pa == pb:
+            return True
+        period = 4 * math.pi if a["n"] in ("CRX", "CRY", "CRZ") else 2 * math.pi
+        d = math.fmod(abs(pa - pb), period)
+        return min(d, period - d) < 1e-7
+    return pa == pb
 
 
 def rand_circuit(rng, names, max_ctl):
